@@ -102,6 +102,16 @@ SCRIPTS = {
 }
 
 
+# a <send delay> executed by the interpreter's thread while the timer thread sits in the callback of an earlier timer (parked there for 60 ms;
+# the transition burns 30 ms first): the delay has to count from the moment the <send> runs, not from when that callback began
+STALE = '''<scxml xmlns="http://www.w3.org/2005/07/scxml" version="1.0" datamodel="lua">
+ <state id="a"><onentry><send event="first" delay="5ms"/></onentry>
+  <transition event="kick"><script>local t = os.clock(); while os.clock() - t &lt; 0.03 do end</script><send event="late" delay="%(d)dms"/></transition>
+  <transition event="first"/><transition event="late"/></state>
+</scxml>'''
+SCRIPTS['send-during-callback'] = dict(script='deq.timer.unlocked:set:parked,deq.timer.unlocked:sleep:60000', send='kick', sendwhen='parked')
+
+
 def run_timing(job):
     flavour, seed, dm, engine, outdir = job
     rng = random.Random(seed)
@@ -136,6 +146,7 @@ def run_script(job):
     rng = random.Random(seed)
     d = rng.randint(30, 80)
     xml = RACE % {'dm': dm, 'd': d, 'd2': d + 150}
+    if name == 'send-during-callback': xml = STALE % {'d': 100 + d}
     f = os.path.join(outdir, 'r_%s_%d.scxml' % (name, seed)); open(f, 'w').write(xml)
     kw = dict(SCRIPTS[name]); kw = dict((k, v) for k, v in kw.items() if v != '')
     if name == 'timer-during-cancel': kw['send'] = 'docancel'; kw['sendwhen'] = ''
@@ -150,6 +161,16 @@ def run_script(job):
         frames = sorted(set(x for x in ('event_del', 'cancelDelayed', 'timerCallback', 'eventReady', 'cancelAllDelayed', 'stop', 'join') if x in blocked))
         rec['bad'].append(('%s:%s:%s' % (key, name, '+'.join(frames)), {'stacks': [s[-5000:] for s in st]})); return rec
     if r['rc'] != 0: rec['bad'].append(('crash:%s:%s' % (name, (common.sanitizer_summary(r['err']) or 'rc=%s' % r['rc'])[:100]), {'stderr': r['err'][-3000:]})); return rec
+    if name == 'send-during-callback':
+        cb = [x[1] for x in recs if x[3] == 'CB' and ' send late ' in x[4]]
+        ev = [x[1] for x in recs if x[3] == 'E' and x[4].split(' ')[1] == 'late']
+        if not cb: rec['reached'] = False
+        elif len(ev) != 1: rec['bad'].append(('delayed-event-delivered-%d-times:%s' % (len(ev), name), {'send_us': cb[0]}))
+        elif ev[0] < cb[0] + (100 + d) * 1000 - G_EARLY_US:
+            rec['bad'].append(('delivered-early:' + name, {'send_us': cb[0], 'delay_ms': 100 + d, 'delivered_us': ev[0], 'early_by_us': cb[0] + (100 + d) * 1000 - ev[0]}))
+        rec['outcome'] = len(ev)
+        rec['sigs'] = thr.signatures(recs, ('HS', 'HW'), 8)
+        return rec
     ticks = sum(1 for x in recs if x[3] == 'E' and x[4].split(' ')[1] == 'tick')
     rec['outcome'] = ticks
     if ticks > 1: rec['bad'].append(('double-delivery:' + name, {'deliveries': ticks}))
@@ -193,7 +214,7 @@ def main(tier, replay):
     shutil.rmtree(outdir, ignore_errors=True)
     chk.add('deliveries_checked', deliveries); chk.add('forced_windows_reached', dict(reached)); chk.add('script_outcomes', dict(outcomes)); chk.add('distinct_interleaving_signatures', len(sigs))
     chk.rule = ('timing charts: 4-14 delayed sends (5-400 ms, ms/s/unit-less forms, ids, a quarter of them to #_internal, some to targets that do not exist) and cancels, stepper polling (20 ms) or really blocking (3 s) in step(), run on plain/tsan/asan builds, both engines; not-early (2 ms) and exactly-once are hard checks, order/cancel rules use a 50 ms margin. '
-                'forced-window scripts (5) park the timer thread at deq.timer.entry / deq.timer.unlocked while <cancel> or destruction runs. distinct_nontrivial = runs without violation')
+                'forced-window scripts (6) park the timer thread at deq.timer.entry / deq.timer.unlocked while <cancel> or destruction runs. distinct_nontrivial = runs without violation')
     chk.assumptions = ['lateness is never a violation', 'a hang is reported with two gdb stack samples; forced scripts that never reach their window make the run inconclusive']
     chk.min_distinct = 10
     chk.finish()
